@@ -376,8 +376,14 @@ func condPos(i *ssa.If) token.Pos {
 
 // callDominatedBy: every call to callee in f is reachable only through a passing edge of rc.
 func (c *Ctx) callDominatedBy(rule string, f *ssa.Function, callee string, rc requiredCheck) {
-	pass, ifs := passingEdges(f, rc)
 	key := fmt.Sprintf("%s call %s requires %s", fnName(f), shortQ(callee), rc.name)
+	// the guarded call (with its guard) may have been moved into an unexported helper of f: decide it there
+	if len(callsTo(f, callee)) == 0 {
+		if h, _ := c.hostOf(f, callee); h != f {
+			f = h
+		}
+	}
+	pass, ifs := passingEdges(f, rc)
 	var sites []*ssa.Call
 	allInstrs(f, func(_ *ssa.BasicBlock, i ssa.Instruction) {
 		if cl, ok := i.(*ssa.Call); ok && callQName(&cl.Call) == callee {
